@@ -1424,7 +1424,11 @@ func (w *World) sleepEventOr(us int64) {
 func (w *World) runScript() {
 	w.strict = true
 	// operations issued before the script started (none normally)
+	aborted := false
 	for si := range w.sc.Script {
+		if aborted {
+			break
+		}
 		st := &w.sc.Script[si]
 		w.wait()
 		w.snapAll(false)
@@ -1442,7 +1446,7 @@ func (w *World) runScript() {
 			var it *Item
 			waited := int64(0)
 			for {
-				if it = w.findItem(st); it != nil || waited > 1_500_000 {
+				if it = w.findItem(st); it != nil || waited > 400_000 {
 					break
 				}
 				w.sleepEventOr(5000)
@@ -1451,8 +1455,10 @@ func (w *World) runScript() {
 				w.stepExpiry(w.tr.NowUs())
 			}
 			if it == nil {
+				// the real code did not do what the model behaviour predicts here: stop following the script
 				w.notFollowed++
 				w.tr.Emit("env", "script_miss", KV{"step": si, "do": st.Do, "who": st.I, "kind": st.Kind, "src": st.Src, "act": st.Act})
+				aborted = true
 				continue
 			}
 			now = w.tr.NowUs()
@@ -1484,7 +1490,19 @@ func (w *World) runScript() {
 		}
 	}
 	w.wait()
-	w.tr.Emit("env", "script_end", KV{"missed": w.notFollowed, "steps": len(w.sc.Script)})
+	w.snapAll(true)
+	// what the store holds now, for the comparison with the model's prediction
+	sr := KV{"missed": w.notFollowed, "steps": len(w.sc.Script), "rec_kind": "absent", "aborted": aborted}
+	w.describeVal(sr, nil, false)
+	if r := w.st.cur("g", time.Now()); r != nil {
+		if r.tomb {
+			sr["rec_kind"] = "tomb"
+		} else {
+			sr["rec_kind"] = "val"
+			w.describeVal(sr, r.val, true)
+		}
+	}
+	w.tr.Emit("env", "script_end", sr)
 	// continue under the latency policy
 	w.strict = false
 	now := w.tr.NowUs()
